@@ -10,12 +10,22 @@ import random
 import vp
 
 
-def generate(ck, maxsize, fams):
+def generate(ck, maxsize, fams, f14=1):
     r = ck.tlc("RegexGen", constants={"MaxSize": maxsize}, workers=4, count=False, timeout=1200)
     if "GENERATED" not in r.out:
         raise vp.Infra("RegexGen produced nothing:\n" + r.out[-2000:])
     gen = os.path.join(ck.work, "tla", "gen_cases.ndjson")
-    n = sum(1 for _ in open(gen))
+    # family F14 has 3*10^4 members: a check that wants it takes every f14-th one, starting at the seed (all of them: f14=1)
+    rows = open(gen).read().splitlines()
+    keep, k = [], 0
+    for l in rows:
+        if '"fam":"F14"' in l.replace(" ", ""):
+            k += 1
+            if "F14" not in fams or (k + ck.seed) % f14:
+                continue
+        keep.append(l)
+    open(gen, "w").write("\n".join(keep) + "\n")
+    n = len(keep)
     ck.log("generator: %d cases (MaxSize=%d)" % (n, maxsize))
     return n
 
